@@ -392,19 +392,43 @@ func runMonitorCopy(p *Program, r *RuleResult) {
 				construct := "monitor-update"
 				// the value: load of a local MonitorUpdate whose `process` field was stored a *NewProcess(...)
 				var procVal ssa.Value
-				if ld, ok := s.X.(*ssa.UnOp); ok {
-					if al, ok := ld.X.(*ssa.Alloc); ok {
-						for _, u := range *al.Referrers() {
-							fa, ok := u.(*ssa.FieldAddr)
-							if !ok {
-								continue
+				procFn := fn
+				fromLiteral := func(v ssa.Value) ssa.Value {
+					var pv ssa.Value
+					if ld, ok := v.(*ssa.UnOp); ok {
+						if al, ok := ld.X.(*ssa.Alloc); ok {
+							for _, u := range *al.Referrers() {
+								fa, ok := u.(*ssa.FieldAddr)
+								if !ok {
+									continue
+								}
+								if _, n, _ := fieldNameOf(fa); n != "process" {
+									continue
+								}
+								for _, st := range storesTo(fa) {
+									pv = st.Val
+								}
 							}
-							if _, n, _ := fieldNameOf(fa); n != "process" {
-								continue
+						}
+					}
+					return pv
+				}
+				procVal = fromLiteral(s.X)
+				if hc, ok := s.X.(*ssa.Call); ok && procVal == nil {
+					// the update is built by a helper with one return: read its literal there
+					if h := hc.Common().StaticCallee(); h != nil && p.isFirstParty(h) && h.Blocks != nil {
+						nRet := 0
+						var pv ssa.Value
+						for _, hb := range h.Blocks {
+							for _, hin := range hb.Instrs {
+								if ret, ok := hin.(*ssa.Return); ok && len(ret.Results) == 1 {
+									nRet++
+									pv = fromLiteral(ret.Results[0])
+								}
 							}
-							for _, st := range storesTo(fa) {
-								procVal = st.Val
-							}
+						}
+						if nRet == 1 && pv != nil {
+							procVal, procFn = pv, h
 						}
 					}
 				}
@@ -415,7 +439,7 @@ func runMonitorCopy(p *Program, r *RuleResult) {
 				// *NewProcess(body, ...), here or in a snapshot helper all of whose returns are
 				// such a freshly built process
 				var body ssa.Value
-				bodyFn := fn
+				bodyFn := procFn
 				newProcBody := func(v ssa.Value) ssa.Value {
 					if ld, ok := v.(*ssa.UnOp); ok {
 						if c, ok := ld.X.(*ssa.Call); ok && c.Common().StaticCallee() != nil && c.Common().StaticCallee().Name() == "NewProcess" {
